@@ -27,6 +27,8 @@ THEOREMS = [
     "Qentem.Props.C09.malformed_repeated_dot",
     "Qentem.Props.C09.malformed_empty_exponent_int",
     "Qentem.Props.C09.malformed_empty_exponent_real",
+    "Qentem.Props.C09.strToNum_no_fault",
+    "Qentem.Props.C09.strToNum_offset_bounds",
 ]
 OPEN = []
 
